@@ -641,7 +641,9 @@ func (g *cssGen) declaration() string {
 		val = r.Pick([]string{"none", "auto", "1", "0", "1 1", "1 1 auto", "0 0 auto", "1 1 0", "1 1 0px", "1 1 0%", "2 2 10%", "0 1 auto", "1 0px", "initial", "1 30px", "0 0 0", "1 1 0em", "auto 1 1"})
 		if r.Chance(1, 3) {
 			// every factor notation: several digits, fractions, exponents
-			f := func() string { return r.Pick([]string{"0", "1", "2", "10", "12", "1.5", "0.5", ".5", "1e1", "100", "1.0", "15"}) }
+			f := func() string {
+				return r.Pick([]string{"0", "1", "2", "10", "12", "1.5", "0.5", ".5", "1e1", "100", "1.0", "15"})
+			}
 			val = f() + " " + f() + " " + r.Pick([]string{"0", "0px", "0%", "auto", "10px", "50%", "0em", "content"})
 		}
 	case 16:
